@@ -549,10 +549,11 @@ theorem pOffLoop_spec (d : Bytes) (k : Nat) : ∀ (buf : Bytes) (done rem : List
           | nil => exact ih rest done [s.attach c] o (by omega) hole
           | cons s2 r2 => exact ih rest (s.attach c :: done) (s2 :: r2) o (by omega) hole
 
-theorem unmarshalPilosa_NP (d : Bytes) : NP (unmarshalPilosa d) := by
-  unfold unmarshalPilosa
+theorem loadPilosa_spec (d : Bytes) :
+    NP (loadPilosa d) ∧ ∀ f cs oo, loadPilosa d = .ok (f, cs, oo) → oo ≤ d.length := by
+  unfold loadPilosa
   by_cases h8 : d.length < 8
-  · simp only [h8, ↓reduceIte]; exact NP_err _
+  · simp only [h8, ↓reduceIte]; exact ⟨NP_err _, fun _ _ _ h => by cases h⟩
   · simp only [h8, ↓reduceIte]
     obtain ⟨magic, hm⟩ := rd_ok "pilosa.magic" d 0 2 (by omega)
     obtain ⟨ver, hv⟩ := at1_ok "pilosa.version" d 2 (by omega)
@@ -560,39 +561,55 @@ theorem unmarshalPilosa_NP (d : Bytes) : NP (unmarshalPilosa d) := by
     rw [hm, hv, hf]
     simp only [Res.ok_bind]
     split
-    · exact NP_err _
+    · exact ⟨NP_err _, fun _ _ _ h => by cases h⟩
     · split
-      · exact NP_err _
+      · exact ⟨NP_err _, fun _ _ _ h => by cases h⟩
       · obtain ⟨keyN, hk⟩ := rd_ok "pilosa.keyN" d 4 4 (by omega)
         rw [hk]
         simp only [Res.ok_bind]
         by_cases c1 : d.length < 8 + keyN * 12
-        · rw [if_pos c1]; exact NP_err _
+        · rw [if_pos c1]; exact ⟨NP_err _, fun _ _ _ h => by cases h⟩
         · rw [if_neg c1]
           by_cases c2 : d.length < 8 + keyN * 16
-          · rw [if_pos c2]; exact NP_err _
+          · rw [if_pos c2]; exact ⟨NP_err _, fun _ _ _ h => by cases h⟩
           · rw [if_neg c2]
             obtain ⟨hbuf, hh, hhl⟩ := sub_ok "pilosa.headers" d 8 d.length (by omega) (Nat.le_refl _)
             rw [hh]
             simp only [Res.ok_bind]
             obtain ⟨hnp, _⟩ := pHdrLoop_spec keyN hbuf [] (by omega)
-            apply NP_bind _ _ hnp
-            intro slots _
-            obtain ⟨obuf, ho, hol⟩ := sub_ok "pilosa.offsets" d (8 + keyN * 12) d.length (by omega) (Nat.le_refl _)
-            rw [ho]
-            simp only [Res.ok_bind]
-            obtain ⟨onp, ole⟩ := pOffLoop_spec d keyN obuf [] slots (8 + keyN * 12) (by omega) (by omega)
-            apply NP_bind _ _ onp
-            intro so hso
-            obtain ⟨slots', oo⟩ := so
-            have := ole slots' oo hso
-            simp only []
-            obtain ⟨lbuf, hlb, hlbl⟩ := sub_ok "pilosa.ops" d oo d.length this (Nat.le_refl _)
-            rw [hlb]
-            simp only [Res.ok_bind]
-            apply NP_bind _ _ (opsLoop_NP lbuf.length lbuf _ 0 0 (Nat.le_refl _))
-            intro r _
-            exact NP_ok _
+            cases hp : pHdrLoop keyN hbuf [] with
+            | panic s => exact absurd hp (hnp s)
+            | err e => exact ⟨NP_err _, fun _ _ _ h => by cases h⟩
+            | ok slots =>
+              simp only [Res.ok_bind]
+              obtain ⟨obuf, ho, hol⟩ := sub_ok "pilosa.offsets" d (8 + keyN * 12) d.length (by omega) (Nat.le_refl _)
+              rw [ho]
+              simp only [Res.ok_bind]
+              obtain ⟨onp, ole⟩ := pOffLoop_spec d keyN obuf [] slots (8 + keyN * 12) (by omega) (by omega)
+              cases hq : pOffLoop d keyN obuf [] slots (8 + keyN * 12) with
+              | panic s => exact absurd hq (onp s)
+              | err e => exact ⟨NP_err _, fun _ _ _ h => by cases h⟩
+              | ok so =>
+                obtain ⟨slots', oo⟩ := so
+                have := ole slots' oo hq
+                refine ⟨NP_ok _, fun f cs oo' h => ?_⟩
+                simp only [Res.ok_bind, Res.pure_eq, Res.ok.injEq, Prod.mk.injEq] at h
+                omega
+
+theorem unmarshalPilosa_NP (d : Bytes) : NP (unmarshalPilosa d) := by
+  unfold unmarshalPilosa
+  obtain ⟨lnp, lle⟩ := loadPilosa_spec d
+  apply NP_bind _ _ lnp
+  intro r hr
+  obtain ⟨flags, cs, oo⟩ := r
+  have := lle flags cs oo hr
+  simp only []
+  obtain ⟨lbuf, hlb, hlbl⟩ := sub_ok "pilosa.ops" d oo d.length this (Nat.le_refl _)
+  rw [hlb]
+  simp only [Res.ok_bind]
+  apply NP_bind _ _ (opsLoop_NP lbuf.length lbuf _ 0 0 (Nat.le_refl _))
+  intro r _
+  exact NP_ok _
 
 theorem oHdrLoop_spec (d : Bytes) (h : OffHeader) (hh : OffHeaderOk d h) (k : Nat) :
     ∀ (i : Nat) (buf : Bytes) (slots : List Slot), i + k = h.size → 4 * k ≤ buf.length →
